@@ -420,6 +420,24 @@ def level_sorted(rng, expanded):
 
 # ------------------------------------------------------------------------------------------ G3: occupancy / flattening
 
+def g3x(rng):
+    """three-rank product with occupancy on one operand's rank, a shape split and a flatten chain on the other's"""
+    K, M, N, P = rng.choice([("K", "M", "N", "P"), ("J", "I", "H", "R")])
+    k, m, n, p = K.lower(), M.lower(), N.lower(), P.lower()
+    fa = ("t", "A", [V(K), V(N), V(P)])
+    fb = ("t", "B", [V(K), V(M)])
+    fs = [fa, fb] if rng.random() < 0.5 else [fb, fa]
+    decl = {"Z": [M, N, P], "A": [K, N, P], "B": [K, M]}
+    e = dict(out="Z", oidx=[V(M), V(N), V(P)], terms=[dict(kind="times", factors=fs, sel=None)])
+    sh = rng.randint(2, 6)
+    parts = {M: ["uniform_occupancy(B.%d)" % rng.randint(1, 4)], N: ["uniform_shape(%d)" % sh], "(%s0, %s)" % (N, P): ["flatten()"]}
+    flat = N + "0" + P
+    loop = rng.choice([[M + "1", N + "1", K, M + "0", flat], [N + "1", M + "1", K, M + "0", flat], [M + "1", N + "1", M + "0", K, flat], [N + "1", K, M + "1", M + "0", flat]])
+    case = dict(decl=decl, eins=[e], mapping={"partitioning": {"Z": parts}, "loop-order": {"Z": loop}},
+                ext={K: rng.randint(1, 4), M: rng.randint(1, 5), N: rng.randint(1, 7), P: rng.randint(1, 3)}, env={}, tags=["g3x"])
+    return case
+
+
 def g3(rng):
     """product Einsums Z[m,n] = A[k,m] * B[k,n] (and variants) with uniform_occupancy / flatten"""
     variant = rng.choice(["occ", "occ", "occ_under_shape", "occ2", "flatten", "flatten_occ", "occ_out"])
